@@ -5,6 +5,7 @@ package main
 // enumeration of acyclic paths with per-path Phi resolution.
 
 import (
+	"strings"
 	"fmt"
 	"go/constant"
 	"go/token"
@@ -562,6 +563,54 @@ func (pa *Path) decidedEarlier(p *Program, cond ssa.Value, at int) (bool, bool) 
 		x, y = y, x
 	}
 	if !isNilConst(y) {
+		// the same two operands compared by an earlier branch (err == io.EOF, then err != io.EOF)
+		sameOperand := func(u, v ssa.Value) bool {
+			if u == v {
+				return true
+			}
+			lu, ok1 := u.(*ssa.UnOp)
+			lv, ok2 := v.(*ssa.UnOp)
+			if ok1 && ok2 && lu.Op == token.MUL && lv.Op == token.MUL {
+				gu, ok3 := lu.X.(*ssa.Global)
+				gv, ok4 := lv.X.(*ssa.Global)
+				// a package variable of another module: sentinels, never assigned by this program
+				return ok3 && ok4 && gu == gv && gu.Pkg != nil && !strings.HasPrefix(gu.Pkg.Pkg.Path(), modPath)
+			}
+			cu, ok1 := u.(*ssa.Const)
+			cv, ok2 := v.(*ssa.Const)
+			if ok1 && ok2 && cu.Value != nil && cv.Value != nil && types.Identical(cu.Type(), cv.Type()) {
+				return constant.Compare(cu.Value, token.EQL, cv.Value)
+			}
+			return false
+		}
+		for i := 0; i < at; i++ {
+			blk := pa.Blocks[i]
+			ifi, ok := blk.Instrs[len(blk.Instrs)-1].(*ssa.If)
+			if !ok || i >= len(pa.Edge) || pa.Edge[i] < 0 {
+				continue
+			}
+			c := pa.ResolveAt(ifi.Cond, i)
+			n2 := false
+			for {
+				if u, ok := c.(*ssa.UnOp); ok && u.Op == token.NOT {
+					n2 = !n2
+					c = pa.ResolveAt(u.X, i)
+					continue
+				}
+				break
+			}
+			b2, ok := c.(*ssa.BinOp)
+			if !ok || (b2.Op != token.EQL && b2.Op != token.NEQ) {
+				continue
+			}
+			x2, y2 := pa.ResolveAt(b2.X, i), pa.ResolveAt(b2.Y, i)
+			if !(sameOperand(x, x2) && sameOperand(y, y2)) && !(sameOperand(x, y2) && sameOperand(y, x2)) {
+				continue
+			}
+			condTrue := pa.Edge[i] == 0
+			equal := (b2.Op == token.EQL) == (condTrue != n2)
+			return ((b.Op == token.EQL) == equal) != neg, true
+		}
 		return false, false
 	}
 	if isNilConst(x) {
